@@ -326,6 +326,11 @@ func (en *DefaultEngine) runFirst(ctx context.Context) (bool, error) {
 	if en.first == nil {
 		return true, nil
 	}
+	if en.st.MatchFlag(state.FLAG_TERMINATE, true) {
+		logg.InfoCtxf(ctx, "terminate set before pre-VM check, not running it", "state", en.st)
+		en.execd = true
+		return false, nil
+	}
 	logg.DebugCtxf(ctx, "start pre-VM check")
 	en.ca.Push()
 	rs := resource.NewMenuResource()
